@@ -95,10 +95,36 @@ Print Assumptions scalar_roundtrip_array.
       arbitrary bytes, null, and JSON values copied through handles), every observation of the
       model is the one the specification's path-indexed last-write-wins store requires, for as
       long as the history stays inside the specification's preconditions (Spec.sstep = Some). *)
+(* Guard: `op_guard` excludes only scope operations that carry an unsigned scalar (known finding
+   scope_unsigned, see 2b); every other operation is unrestricted.  Full statement: the same
+   without the guard — false for the library as it is (scope_unsigned_refuted). *)
 Theorem json_roundtrip : forall (F : fops) (ops : list op),
+  forallb op_guard ops = true ->
   Forall2 agrees (run F cfg_fixed ops) (s_run ops).
 Proof. exact json_roundtrip_l. Qed.
 Print Assumptions json_roundtrip.
+
+(* ------------------------------------------------------------------------------------------
+   2b. Scopes: a scalar added with occaScopeAdd / occaScopeAddConst is declared in the inlined
+       (JIT) kernel's signature with the C type of its kind and the kernel reads the value that
+       was added — for bool, the signed integer kinds, float and double.
+       Full statement (scope_roundtrip for EVERY kind): false for the library as it is: the occa
+       dtype system has no unsigned builtins (dtype::uint8 is dtype::char_ ...), so uint8/16/32/64
+       scope values are declared `char/short/int/long` and values with the top bit set arrive
+       negative (known finding scope_unsigned; witness below). *)
+Theorem scope_roundtrip_partial : forall (isConst : bool) (k : kind) (v : Z),
+  in_range k v = true -> is_unsigned k = false ->
+  scope_decl cfg_fixed isConst (LScalar k v) = ODecl isConst (s_cname k) false /\
+  scope_reads cfg_fixed (LScalar k v) = OType (lit_otype (LScalar k v)).
+Proof. exact scope_roundtrip_l. Qed.
+Print Assumptions scope_roundtrip_partial.
+
+Theorem scope_unsigned_refuted :
+  exists k v, in_range k v = true /\
+    scope_decl cfg_fixed true (LScalar k v) <> ODecl true (s_cname k) false /\
+    scope_reads cfg_fixed (LScalar k v) <> OType (lit_otype (LScalar k v)).
+Proof. exact scope_unsigned_refuted_l. Qed.
+Print Assumptions scope_unsigned_refuted.
 
 (* what "last write wins" means in the specification's store *)
 Theorem spec_store_read_back : forall (d : doc) (p q : path) (g : doc), graft d p g (p ++ q) = g q.
